@@ -1,5 +1,6 @@
 import G3D.Model.InterFlat
 import G3D.Model.Body
+import G3D.Model.Dispatch
 /-! The remaining 13 handlers of calc/intersection.py (those involving ConvexPolygon / ConvexPolyhedron)
     and the helpers of calc/aux_calc.py. Internal generic `intersection(...)` calls are resolved to the
     handler the dispatch table selects for the (statically known) operand types. -/
@@ -12,7 +13,7 @@ inductive Obj
   | polyhedron (B : Polyhedron)
 deriving Repr
 
-inductive BErr | bug | notImpl | arity | ctor (e : CErr) | value
+inductive BErr | bug | notImpl | arity | ctor (e : CErr) | value | typeMismatch
 deriving Repr
 
 abbrev ResB := Except BErr (Option Obj)
@@ -272,8 +273,58 @@ def interPolyhedronPolyhedron (A B : Polyhedron) : ResB := do
   | [], [], [p] => pt? p
   | [], [], [] => pure none
 
-/-- the 49-cell dispatcher (hand-written here; generated from the source in the framework) -/
-def inter : Obj → Obj → ResB
+def tyOf : Obj → Dispatch.Ty
+  | .flat (.point _) => .point
+  | .flat (.line _) => .line
+  | .flat (.plane _) => .plane
+  | .flat (.seg _) => .seg
+  | .flat (.halfline _) => .halfline
+  | .polygon _ => .polygon
+  | .polyhedron _ => .polyhedron
+
+/-- a handler applied to operands in the handler's own parameter order; a type mismatch is the
+    Python `AttributeError`/`TypeError` one would get from calling a handler with wrong operands -/
+def runHandler : Dispatch.Handler → Obj → Obj → ResB
+  | .inter_point_point, .flat (.point p), .flat (.point q) => liftFlat (interPointPoint p q)
+  | .inter_point_line, .flat (.point p), .flat (.line l) => liftFlat (interPointLine p l)
+  | .inter_point_plane, .flat (.point p), .flat (.plane pl) => liftFlat (interPointPlane p pl)
+  | .inter_point_segment, .flat (.point p), .flat (.seg s) => liftFlat (interPointSeg p s)
+  | .inter_point_halfline, .flat (.point p), .flat (.halfline h) => liftFlat (interPointHalfLine p h)
+  | .inter_point_convexpolygon, .flat (.point p), .polygon P => interPointPolygon p P
+  | .inter_point_convexpolyhedron, .flat (.point p), .polyhedron B => interPointPolyhedron p B
+  | .inter_line_line, .flat (.line a), .flat (.line b) => liftFlat (interLineLine a b)
+  | .inter_line_plane, .flat (.line l), .flat (.plane p) => liftFlat (interLinePlane l p)
+  | .inter_line_segment, .flat (.line l), .flat (.seg s) => liftFlat (interLineSeg l s)
+  | .inter_line_halfline, .flat (.line l), .flat (.halfline h) => liftFlat (interLineHalfLine l h)
+  | .inter_line_convexpolygon, .flat (.line l), .polygon P => interLinePolygon l P
+  | .inter_line_convexpolyhedron, .flat (.line l), .polyhedron B => interLinePolyhedron l B
+  | .inter_plane_plane, .flat (.plane a), .flat (.plane b) => liftFlat (interPlanePlane a b)
+  | .inter_plane_segment, .flat (.plane a), .flat (.seg s) => liftFlat (interPlaneSeg a s)
+  | .inter_plane_halfline, .flat (.plane a), .flat (.halfline h) => liftFlat (interPlaneHalfLine a h)
+  | .inter_plane_convexpolygon, .flat (.plane a), .polygon P => interPlanePolygon a P
+  | .inter_plane_convexpolyhedron, .flat (.plane a), .polyhedron B => interPlanePolyhedron a B
+  | .inter_segment_segment, .flat (.seg a), .flat (.seg b) => liftFlat (interSegSeg a b)
+  | .inter_segment_halfline, .flat (.seg a), .flat (.halfline b) => liftFlat (interSegHalfLine a b)
+  | .inter_segment_convexpolygon, .flat (.seg s), .polygon P => interSegPolygon s P
+  | .inter_segment_convexpolyhedron, .flat (.seg s), .polyhedron B => interSegPolyhedron s B
+  | .inter_halfline_halfline, .flat (.halfline a), .flat (.halfline b) => liftFlat (interHalfLineHalfLine a b)
+  | .inter_convexpolygon_halfline, .polygon P, .flat (.halfline h) => interPolygonHalfLine P h
+  | .inter_convexpolyhedron_halfline, .polyhedron B, .flat (.halfline h) => interPolyhedronHalfLine B h
+  | .inter_convexpolygon_convexpolygon, .polygon P, .polygon Q => interPolygonPolygon P Q
+  | .inter_convexpolygon_convexPolyhedron, .polyhedron B, .polygon P => interPolygonPolyhedron B P
+  | .inter_convexpolyhedron_convexpolyhedron, .polyhedron A, .polyhedron B => interPolyhedronPolyhedron A B
+  | _, _, _ => .error .typeMismatch
+
+/-- `intersection(a, b)` for non-None operands, driven by a dispatch table -/
+def interBy (tbl : Dispatch.Ty → Dispatch.Ty → Dispatch.Cell) (a b : Obj) : ResB :=
+  match tbl (tyOf a) (tyOf b) with
+  | .call h false => runHandler h a b
+  | .call h true => runHandler h b a
+  | .retNone => .ok none
+  | _ => .error .notImpl
+
+/-- the hand-written reference dispatcher: what the 49 cells are expected to do -/
+def interRef : Obj → Obj → ResB
   | .flat x, .flat y => interFlatPair x y
   | .flat (.point p), .polygon P => interPointPolygon p P
   | .polygon P, .flat (.point p) => interPointPolygon p P
@@ -284,7 +335,7 @@ def inter : Obj → Obj → ResB
   | .flat (.line l), .polyhedron B => interLinePolyhedron l B
   | .polyhedron B, .flat (.line l) => interLinePolyhedron l B
   | .flat (.plane a), .polygon P => interPlanePolygon a P
-  | .polygon _, .flat (.plane _) => .error .notImpl        -- D1: dead branch in the pinned source
+  | .polygon P, .flat (.plane a) => interPlanePolygon a P
   | .flat (.plane a), .polyhedron B => interPlanePolyhedron a B
   | .polyhedron B, .flat (.plane a) => interPlanePolyhedron a B
   | .flat (.seg s), .polygon P => interSegPolygon s P
